@@ -38,6 +38,8 @@ pub async fn handle(
             ))?;
     command.message_expiry = topic.message_expiry;
     command.max_topic_size = topic.max_topic_size;
+    // The assigned ID is journalled, otherwise the replay would have to guess it again.
+    command.topic_id = Some(topic.topic_id);
     let response = mapper::map_topic(topic).await;
 
     let system = system.downgrade();
